@@ -233,6 +233,72 @@ func TestVerif_C16(t *testing.T) {
 				rp.cleanup()
 				c.Count("test_recordings_across_a_bad_frame", 1)
 			}
+			// connection churn: many very short connections (each publishes a header and a processor
+			// under the service mutex) while requesters call the service in a tight loop. Whatever
+			// the interleaving of a request with a publication, every connection is served.
+			{
+				rp, err := prepareConn(scratch, cfg, cam)
+				if err != nil {
+					c.Inconclusive("prepareConn: " + err.Error())
+					return
+				}
+				stopReq := make(chan struct{})
+				var reqWG sync.WaitGroup
+				var nreq int64
+				for g := 0; g < 4; g++ {
+					reqWG.Add(1)
+					go func(g int) {
+						defer reqWG.Done()
+						for {
+							select {
+							case <-stopReq:
+								return
+							default:
+							}
+							if g%2 == 0 {
+								(&service{}).TakeTestRecording()
+							} else {
+								(&service{}).TakeSnapshot(-1)
+							}
+							atomic.AddInt64(&nreq, 1)
+							runtime.Gosched()
+						}
+					}(g)
+				}
+				churn := int(c.N(120, 600))
+				var served int64
+				done := make(chan error, 1)
+				go func() {
+					for i := 0; i < churn; i++ {
+						pframes := []*pFrame{}
+						for k := 0; k < 3; k++ {
+							pframes = append(pframes, &pFrame{Seq: 48000 + 10*i + k, TimeOnMS: timeOnFor(48000 + 10*i + k), FPATempCK: 30000, FPAFFCCK: 30000, Pix: newPix(cam.ResX, cam.ResY, uniformValue(48000+10*i+k))})
+						}
+						rp.serve(pacedFeed(cam, pframes, 0), nil)
+						if rp.Err != io.EOF {
+							done <- fmt.Errorf("connection %d: handleConn returned %v", i, rp.Err)
+							return
+						}
+						atomic.AddInt64(&served, 1)
+					}
+					done <- nil
+				}()
+				select {
+				case err := <-done:
+					close(stopReq)
+					if err != nil {
+						c.Violation("request-stalls-pipeline", "requests during connection churn", err.Error())
+						return
+					}
+				case <-time.After(120 * time.Second):
+					c.Violation("request-stalls-pipeline", "requests during connection churn", fmt.Sprintf("%d of %d short connections were served in 120 s while 4 requesters called TakeTestRecording / TakeSnapshot (%d calls returned): a request and the publication of a new connection block each other", atomic.LoadInt64(&served), churn, atomic.LoadInt64(&nreq)))
+					c.Abort()
+				}
+				reqWG.Wait()
+				rp.cleanup()
+				c.Count("churn_connections", int64(churn))
+				c.Count("requests_during_churn", atomic.LoadInt64(&nreq))
+			}
 			mu.Lock()
 			processor, headerInfo = nil, nil
 			mu.Unlock()
